@@ -38,9 +38,7 @@ theorem regexes_as_modelled :
        ("nested_expr closer", "'}'"),
        ("nested_expr content", "<dynamic>"),
        ("parse_string 0", "template '{<dynamic>}'")] ∧
-    Gen.rxBraceImports =
-      ["pyparsing.Combine", "pyparsing.OneOrMore", "pyparsing.White", "pyparsing.Word", "pyparsing.nested_expr", "pyparsing.printables"] ∧
-    Gen.rxScanBraceUnpack =
+    Gen.rxBraceUnpack =
       [("==", ";", "[-1]")] ∧
     Gen.ppPrintables =
       "0123456789abcdefghijklmnopqrstuvwxyzABCDEFGHIJKLMNOPQRSTUVWXYZ!\"#$%&'()*+,-./:;<=>?@[\\]^_`{|}~" ∧
@@ -52,10 +50,10 @@ theorem regexes_as_modelled :
       "quoted_string" ∧
     Gen.ppParseAllDefault =
       "False" := by
-  refine ⟨?regexes_as_modelled__rxBraceCalls, ?regexes_as_modelled__rxBraceImports,
-    ?regexes_as_modelled__rxScanBraceUnpack, ?regexes_as_modelled__ppPrintables,
-    ?regexes_as_modelled__ppDefaultWhiteChars, ?regexes_as_modelled__ppQuotedStringRegexes,
-    ?regexes_as_modelled__ppNestedExprIgnoreDefault, ?regexes_as_modelled__ppParseAllDefault⟩
+  refine ⟨?regexes_as_modelled__rxBraceCalls, ?regexes_as_modelled__rxBraceUnpack,
+    ?regexes_as_modelled__ppPrintables, ?regexes_as_modelled__ppDefaultWhiteChars,
+    ?regexes_as_modelled__ppQuotedStringRegexes, ?regexes_as_modelled__ppNestedExprIgnoreDefault,
+    ?regexes_as_modelled__ppParseAllDefault⟩
   all_goals rfl
 
 end Ccp.RxC08
